@@ -126,6 +126,8 @@ def do_replay(pid, mod, path):
 
 
 def main(argv=None):
+    import faulthandler, signal
+    faulthandler.register(signal.SIGUSR1, all_threads=True)
     ap = argparse.ArgumentParser()
     ap.add_argument('pid')
     ap.add_argument('--tier', default=os.environ.get('VERIF_TIER', 'quick'))
@@ -218,7 +220,7 @@ def main(argv=None):
     for v in new_viols[:12]:
         # determinism: re-execute twice from the replay record before reporting
         path = save_replay(pid, tier, seed, v)
-        if not v['space'].startswith('bfs:'):
+        if not v['space'].startswith('bfs:') and v['signature'].get('kind') not in ('hang', 'crash'):
             sp = next((s for s in spaces if s.name == v['space']), None)
             rec = json.load(open(path))
             r1 = ex.safe_evaluate(sp, rec['case'])
